@@ -155,6 +155,58 @@ def check_case(ctx, c, label=""):
                 return
 
 
+def check_library_built(ctx, s, k=0):
+    """Plain strings of the caller that the LIBRARY turns into attribute values: the URL base, library prefix and name of a
+    dependency, and the values of its meta / stylesheet / script items."""
+    from ..ref import charref
+
+    variant = k % 4
+    if "\x00" in s:
+        s = s.replace("\x00", "")
+    try:
+        if variant == 0:
+            dep = ht.HTMLDependency("lib", "1.0", source={"href": "https://cdn.example/base?" + s}, script={"src": "f.js", "integrity": s}, stylesheet={"href": "f.css", "media": s})
+            lp = "lib"
+        elif variant == 1:
+            dep = ht.HTMLDependency("n" + s, "1.0", source={"subdir": "some/dir"}, script=[{"src": "a.js"}, {"src": "b.js", "data-x": s}], stylesheet={"href": "c.css"})
+            lp = "lib"
+        elif variant == 2:
+            dep = ht.HTMLDependency("lib", "1.0", source={"subdir": "some/dir"}, script={"src": "a.js"}, stylesheet={"href": "c.css", "title": s})
+            lp = "pre" + s + "fix"
+        else:
+            dep = ht.HTMLDependency("lib", "1.0", meta=[{"name": "m" + s, "content": s}, {"name": "k", "content": "c", "data-extra": s}], source={"href": s}, script={"src": "z.js"})
+            lp = None
+        iv = k % 3 != 0
+        d = dep.as_dict(lib_prefix=lp, include_version=iv)
+        out = dep.as_html_tags(lib_prefix=lp, include_version=iv).get_html_string()
+    except Exception as e:
+        ctx.violation("attr-supply-raises", "building / rendering a dependency with value %r raised %r" % (s[:60], e), {"value": s[:300], "variant": variant})
+        return
+    ctx.count("oracle.library_built_attributes")
+    want = []
+    for item in d["meta"]:
+        want.append(("meta", list(item.items())))
+    for item in d["stylesheet"]:
+        want.append(("link", list(item.items())))
+    for item in d["script"]:
+        want.append(("script", list(item.items())))
+    wit = {"value": s[:300], "variant": variant, "output": out[:1500]}
+    try:
+        toks = [t for t in tokenizer.tokenize(out) if t[0] == "open"]
+    except tokenizer.Forged as f:
+        ctx.violation("attr-forges-markup", "dependency tags: %s" % f, wit)
+        return
+    if [(t[1], [a for a, _ in t[2]]) for t in toks] != [(n, [a for a, _ in items]) for n, items in want]:
+        ctx.violation("attr-forges-markup", "dependency tags: elements / attribute names differ from the dependency's definition", wit)
+        return
+    for t, (n, items) in zip(toks, want):
+        for (a, raw), (_, val) in zip(t[2], items):
+            why = charref.check_escaped(raw, str(val), charref.ATTR_SET)
+            if why:
+                ctx.violation("attr-plain-not-inert", "dependency tag <%s %s=\"%s\">: %s" % (n, a, raw[:80], why), wit)
+                return
+
+
 def _classify(parts):
     kinds = {k for k, _ in parts if k != "sep"}
     if kinds == {"plain", "html"}:
@@ -273,6 +325,19 @@ def _run(ctx):
     ctx.exhaustive["strings_len_le_%d_over_9_char_attr_alphabet" % maxlen] = True
     for sh in shapes:
         ctx.state("shape_x_class", (sh, "short"))
+
+    # 2b. values the library itself turns into attributes (dependency tags)
+    k_ = 0
+    for L in range(0, 3):
+        for tup in itertools.product(ALPHABET, repeat=L):
+            for v_ in range(4):
+                k_ += 1
+                if ctx.mine(k_):
+                    check_library_built(ctx, "".join(tup), k_)
+    for _ in range(ctx.budget(400, 200000)):
+        k_ += 1
+        check_library_built(ctx, gen.text_of(rng, rng.choice(["word", "meta", "markup", "ws", "nl", "exotic", "mixed", "empty"])), k_)
+    ctx.require("oracle.library_built_attributes", 300)
 
     # 3. random hostile values into shapes, and fully random programs
     for _ in range(ctx.budget(4000, 3000000)):
